@@ -32,7 +32,7 @@ static const CacheCfg CC[6] = {
 struct World {   // everything that depends on the key
 	std::string key;
 	randomx_cache* cache[6] = {}; randomx_dataset* ds[6] = {};
-	struct V { randomx_vm* vm; std::string name; }; std::vector<V> vms;
+	struct V { randomx_vm* vm; std::string name; bool born_v2; }; std::vector<V> vms;   // born_v2: created with RANDOMX_FLAG_V2 (the public way to select v2), used for v2 cases only, never switched
 	spec::Cache sc;
 	std::string build(const std::vector<int>& cache_ids, const std::vector<int>& ds_ids, int threads) {
 		for (int c : cache_ids) {
@@ -57,9 +57,11 @@ struct World {   // everything that depends on the key
 		for (auto& fs : vm_flagsets()) {
 			bool full = fs.flags & RANDOMX_FLAG_FULL_MEM;
 			for (int c : (full ? ds_ids : cache_ids)) {
-				randomx_vm* vm = randomx_create_vm((randomx_flags)(fs.flags | LP), full ? nullptr : cache[c], full ? ds[c] : nullptr);
-				if (!vm) return std::string("randomx_create_vm failed for ") + fs.name;
-				vms.push_back({ vm, std::string(fs.name) + "@" + CC[c].name });
+				for (int born = 0; born < 2; ++born) {
+					randomx_vm* vm = randomx_create_vm((randomx_flags)(fs.flags | LP | (born ? RANDOMX_FLAG_V2 : 0)), full ? nullptr : cache[c], full ? ds[c] : nullptr);
+					if (!vm) return std::string("randomx_create_vm failed for ") + fs.name;
+					vms.push_back({ vm, std::string(fs.name) + (born ? "+V2" : "") + "@" + CC[c].name, (bool)born });
+				}
 			}
 		}
 		return "";
@@ -75,16 +77,16 @@ static vf::Json case_json(const std::string& key, const std::string& in, bool v2
 static std::string check_case(World& w, const std::string& in, bool v2, vf::Result& R, bool with_model) {
 	uint8_t ref[32]; bool have_ref = false; std::string refname;
 	if (with_model) { spec::hash(w.sc, in.data(), in.size(), v2, ref); have_ref = true; refname = "specification"; }
-	std::string bad; int nbad = 0;
+	std::string bad; int nbad = 0, ncfg = 0;
 	for (auto& v : w.vms) {
-		if (v2) v.vm->setFlagV2(); else v.vm->clearFlagV2();
+		if (v.born_v2) { if (!v2) continue; } else if (v2) v.vm->setFlagV2(); else v.vm->clearFlagV2();
 		uint8_t out[32]; randomx_calculate_hash(v.vm, in.data(), in.size(), out);
-		R.n["hashes"]++;
+		R.n["hashes"]++; ++ncfg;
 		if (!have_ref) { memcpy(ref, out, 32); have_ref = true; refname = v.name; continue; }
 		if (memcmp(ref, out, 32)) { if (nbad++ < 6) bad += v.name + " "; }
 	}
-	R.n["cases"]++; R.mx["configurations_per_case"] = w.vms.size();
-	if (nbad) return std::to_string(nbad) + " of " + std::to_string(w.vms.size()) + " configurations disagree with " + refname + ": " + bad;
+	R.n["cases"]++; R.mx["configurations_per_case"] = std::max<uint64_t>(R.mx["configurations_per_case"], (uint64_t)ncfg);
+	if (nbad) return std::to_string(nbad) + " of " + std::to_string(ncfg) + " configurations disagree with " + refname + ": " + bad;
 	return "";
 }
 
@@ -158,7 +160,7 @@ int main(int argc, char** argv) {
 	vf::Evidence ev; ev.level = "exploration";
 	ev.coverage.set("evaluations", (unsigned long long)total.n["hashes"]).set("distinct_nontrivial", (unsigned long long)total.n["cases"])
 		.set("exhaustive", !total.incomplete)
-		.set("rule", std::string("profile ") + RX_PROFILE + ": every (key,input,version) of the alphabets is hashed by every configuration of the lattice (light flag sets x 6 cache configurations, fast flag sets x datasets built by the compiled/interpreted initialiser of those caches); all digests must be equal and equal to the specification model. evaluations = hashes, distinct = (key,input,version) cases; configurations per case in counters")
+		.set("rule", std::string("profile ") + RX_PROFILE + ": every (key,input,version) of the alphabets is hashed by every configuration of the lattice (light flag sets x 6 cache configurations, fast flag sets x datasets built by the compiled/interpreted initialiser of those caches; for v2 every configuration twice: a VM created with RANDOMX_FLAG_V2 and a VM switched to v2 after creation); all digests must be equal and equal to the specification model. evaluations = hashes, distinct = (key,input,version) cases; configurations per case in counters")
 		;
 #ifdef RX_LARGEPAGES
 	ev.assumptions = { "this part runs every cache, dataset and VM with RANDOMX_FLAG_LARGE_PAGES; the sandbox has no huge pages, so the harness-owned mmap answers MAP_HUGETLB requests with ordinary pages (the library's large-page classes and allocator code are the real ones)" };
